@@ -50,6 +50,11 @@ type Result struct {
 	Sites    int
 	Notes    []string
 	Assume   []string
+	// Alias maps a rule id to the id under which it is listed for the property being decided
+	// (a rule that is a necessary condition of two properties runs under both, see rules.alias).
+	Alias map[string]string
+	// Keep, when set, drops the obligations (and rule texts) it rejects: used to run only part of another property's rules
+	Keep func(rule, construct string) bool
 }
 
 func New(property string) *Result {
@@ -58,6 +63,13 @@ func New(property string) *Result {
 
 // Rule registers the text of a rule (for the evidence file).
 func (r *Result) Rule(id, text string) {
+	if r.Keep != nil && !r.Keep(id, "") {
+		return
+	}
+	if a, ok := r.Alias[id]; ok {
+		text = "(= " + id + ", also a necessary condition of this property) " + text
+		id = a
+	}
 	if _, ok := r.ruleIdx[id]; ok {
 		return
 	}
@@ -67,6 +79,12 @@ func (r *Result) Rule(id, text string) {
 }
 
 func (r *Result) add(rule, construct, pos string, st Status, nontrivial bool, detail string) {
+	if r.Keep != nil && !r.Keep(rule, construct) {
+		return
+	}
+	if a, ok := r.Alias[rule]; ok {
+		rule = a
+	}
 	for _, o := range r.Obls {
 		if o.Rule == rule && o.Construct == construct && o.Status == st && o.Config == r.Config {
 			return // same obligation reached through a second syntactic route
